@@ -164,6 +164,7 @@ func c18Template(r *R) string {
 				"{{ people|first|json_encode }}{{ people|reverse|first|json_encode }}{{ people|slice(0, 1)|json_encode }}{{ people|length }};",
 				"{% set q = people|last %}{{ q.Tags|reverse|first }}{{ q.Tags|sort|first }}{{ q.Tags|slice(1)|join }};",
 				"{{ mos.a|sort|join(',') }}{{ mos.a|reverse|first }}{{ mos.b|slice(0, 1)|json_encode }}{{ mos|keys|join(',') }}{% for k, l in mos %}{{ l|sort|first }}{% endfor %};",
+				"{{ parr|" + pick(r, []string{"sort|join(',')", "reverse|first", "slice(0, 2)|json_encode", "first", "join(',')", "merge([9])|length"}) + " }}{{ arr|" + pick(r, []string{"first", "join(',')", "sort|join(',')", "reverse|first"}) + " }};",
 				"{{ pp2.Name }}{{ pp2.Tags|sort|join(',') }}{{ inil.Name|default('nil') }}{{ inil is null ? 'n' : 'p' }}{{ inil|default('d') }};",
 			}))
 		default:
@@ -190,6 +191,8 @@ func (propC18) Gen(seed uint64, ex map[string]bool) interface{} {
 		KV{"people", &Val{T: "people", L: []*Val{{T: "str", S: "zed", I: 30}, {T: "str", S: "amy", I: 20}, {T: "str", S: "bob", I: 25}}}},
 		KV{"mos", &Val{T: "mos", M: []KV{{"b", &Val{T: "ilist", L: []*Val{i(9), i(1), i(5)}}}, {"a", &Val{T: "ilist", L: []*Val{i(3), i(2), i(1)}}}}}},
 		KV{"pp2", &Val{T: "pptr", S: "deep", I: 4}},
+		KV{"parr", &Val{T: "parr"}},
+		KV{"arr", &Val{T: "arr"}},
 		KV{"inil", &Val{T: "inil"}},
 		KV{"buf", &Val{T: "buffer", S: "buffered <text>"}},
 		KV{"svc", &Val{T: "map", M: []KV{{"name", s("svc")}, {"fn", &Val{T: "func", S: "called"}}, {"handlers", &Val{T: "map", M: []KV{{"label", s("L")}, {"h", &Val{T: "func", S: "h-called"}}}}}}}},
